@@ -39,7 +39,7 @@ def strategy(tier):
                     "grid": sorted(set(draw(st.lists(S.fl(0.02, 1.0, 3), min_size=2, max_size=6))))}
         m = draw(S.event_model(transition_only=True, kinds="T"))
         su = draw(S.stochastic_setup(m))
-        algo = draw(st.sampled_from(["exact", "tau", "pre_tau", "exact-grid"]))
+        algo = draw(st.sampled_from(["exact", "tau", "pre_tau", "exact-grid", "tau-grid"]))
         return {"part": part, "model": m, "setup": su, "algo": algo,
                 "pre_tau": draw(st.sampled_from([0.02, 0.1, 0.5])),
                 "ngrid": draw(st.integers(3, 8))}
@@ -98,10 +98,11 @@ def oracle(case, rec):
     rec.label("algo:" + algo)
     box = stoch.limit_steps(model, 400000 if exact else 60000)
     try:
-        if algo == "exact-grid":
+        if algo in ("exact-grid", "tau-grid"):
             grid = np.linspace(su["t0"], t_end, case["ngrid"])
             np.random.seed(su["np_seed"])
-            Xs, _c, _t = stoch.simulate("C10", "C10/" + algo, case, model.solve_stochast, grid, 2, exact=True, full_output=True)
+            Xs, _c, _t = stoch.simulate("C10", "C10/" + algo, case, model.solve_stochast, grid, 2, exact=(algo == "exact-grid"),
+                                        full_output=True)
         else:
             Xs, _c, _t = stoch.simulate("C10", "C10/" + algo, case, stoch.run_raw, model, t_end, 2, exact, su["np_seed"])
     except stoch.StepBudget:
@@ -112,8 +113,15 @@ def oracle(case, rec):
         X = np.asarray(X, float)
         tot = X.sum(axis=1)
         steps = max(steps, len(tot) - 1)
+        if algo == "tau-grid":
+            # gridded tau-leap rows are interpolated between integer states: the total is kept up to float rounding
+            if np.abs(tot - total0).max() > 1e-9 * (1 + abs(total0)):
+                k = int(np.argmax(np.abs(tot - total0)))
+                raise PropertyViolation("C10/path-sum/tau-grid", "row %d of a gridded tau-leap path sums to %r, initial total %r" % (
+                    k, tot[k], total0), case)
+            continue
         if not (tot == total0).all():
             k = int(np.argwhere(tot != total0)[0][0])
             raise PropertyViolation("C10/path-sum/" + algo, "row %d of a %s path sums to %r, initial total %r" % (k, algo, tot[k], total0), case)
-    if interesting and (steps >= 5 or algo == "exact-grid"):
+    if interesting and (steps >= 5 or algo in ("exact-grid", "tau-grid")):
         rec.mark_nontrivial(case, {"model": pretty(m), "setup": su, "algo": algo})
